@@ -23,6 +23,7 @@ const T_R: Label = (false, Stance::Reject);
 const T_U: Label = (false, Stance::Uncertain);
 const V_S: Label = (true, Stance::Support);
 const V_R: Label = (true, Stance::Reject);
+const V_U: Label = (true, Stance::Uncertain);
 
 fn spec(st: (u8, u8), label: Label, conf: u8) -> Spec {
     Spec {
@@ -91,15 +92,17 @@ fn letters(rivals: &[bool], ev: &[u8], confs: &[u8]) -> Vec<Spec> {
     v
 }
 
-/// Structure multisets of size n over 3 actors x all 8 evidence subsets;
-/// `orbits`: one representative per renaming class of actors / evidence ids.
-fn structure_multisets(n: usize, orbits: bool) -> Vec<Vec<(u8, u8)>> {
+/// Structure multisets of size n over 3 actors x the subsets of 3 evidence ids.
+/// `classes`: one representative per renaming class of actors / evidence ids.
+/// `max_ev`: only multisets that cite at most this many distinct evidence ids.
+fn structure_multisets(n: usize, classes: bool, max_ev: u32) -> Vec<Vec<(u8, u8)>> {
     let st = case::structures(3, &[0, 1, 2, 3, 4, 5, 6, 7]);
     let mut out = Vec::new();
     for ms in case::multisets(st.len(), n) {
         let mut m: Vec<(u8, u8)> = ms.iter().map(|i| st[*i]).collect();
         m.sort();
-        if !orbits || case::canonical_structure(&m) == m {
+        let cited = m.iter().fold(0u8, |acc, (_, e)| acc | e).count_ones();
+        if cited <= max_ev && (!classes || case::canonical_structure(&m) == m) {
             out.push(m);
         }
     }
@@ -144,6 +147,9 @@ fn stages(tier: Tier) -> Vec<Stage> {
     let q3 = vec![(3, 0), (3, 1), (3, 2)]; // baseline, strict, lax thresholds
     let all_ev: Vec<u8> = (0..8).collect();
     let confs = [0u8, 3, 6, 9];
+    let quick = tier == Tier::Quick;
+    let cls = |b: bool| if b { " (one per actor/evidence renaming class)" } else { "" };
+    let kind = |f: bool| if f { "functional" } else { "plain" };
     let mut v = Vec::new();
     // n = 0, 1: every letter, both predicates, both values
     for functional in [false, true] {
@@ -151,86 +157,103 @@ fn stages(tier: Tier) -> Vec<Stage> {
         let mut groups = full_family(functional, &l, 0);
         groups.extend(full_family(functional, &l, 1));
         v.push(Stage {
-            name: format!("n<=1 {} all 576 letters", if functional { "functional" } else { "plain" }),
+            name: format!("n<=1 {}: all {} letters", kind(functional), l.len()),
             n: 1,
             groups,
             queries: q3.clone(),
         });
     }
-    // n = 2: all multisets of full letters, both orders
-    match tier {
-        Tier::Quick => {
-            let l = letters(&[false], &[0, 1, 2, 3], &confs);
+    // n = 2: every pair of letters, both orders
+    if quick {
+        let s2 = structure_multisets(2, true, 3);
+        v.push(Stage {
+            name: format!("n=2 plain: {} structure pairs{} x every stance pair x every confidence pair", s2.len(), cls(true)),
+            n: 2,
+            groups: pattern_family(false, &s2, &words(&[T_S, T_R, T_U], 2), &words(&confs, 2), true),
+            queries: q3.clone(),
+        });
+        v.push(Stage {
+            name: format!("n=2 functional: {} structure pairs{} x every value/stance pair x confidence patterns (.6,.9),(unstated,.3)", s2.len(), cls(true)),
+            n: 2,
+            groups: pattern_family(true, &s2, &words(&[T_S, T_R, T_U, V_S, V_R, V_U], 2), &[vec![6u8, 9], vec![0, 3]], true),
+            queries: q1.clone(),
+        });
+    } else {
+        for functional in [false, true] {
+            let l = letters(&[false, true], &all_ev, &confs);
             v.push(Stage {
-                name: format!("n=2 plain, {} letters (v0; evidence subsets of 2 ids)", l.len()),
+                name: format!("n=2 {}: all multisets over {} letters", kind(functional), l.len()),
                 n: 2,
-                groups: full_family(false, &l, 2),
-                queries: q3.clone(),
+                groups: full_family(functional, &l, 2),
+                queries: if functional { q1.clone() } else { q3.clone() },
             });
-            let l = letters(&[false, true], &[0, 1], &[0, 3, 9]);
-            v.push(Stage {
-                name: format!("n=2 functional, {} letters (v0/v1; evidence subsets of 1 id; 3 confidences)", l.len()),
-                n: 2,
-                groups: full_family(true, &l, 2),
-                queries: q3.clone(),
-            });
-        }
-        Tier::Thorough => {
-            for functional in [false, true] {
-                let l = letters(&[false, true], &all_ev, &confs);
-                v.push(Stage {
-                    name: format!("n=2 {}, all {} letters", if functional { "functional" } else { "plain" }, l.len()),
-                    n: 2,
-                    groups: full_family(functional, &l, 2),
-                    queries: q1.clone(),
-                });
-            }
         }
     }
-    // n = 3: every structure multiset, every order, every stance pattern
-    let orbits = tier == Tier::Quick;
-    let s3 = structure_multisets(3, orbits);
+    // n = 3: every structure multiset, every order, stance patterns
+    let s3 = structure_multisets(3, quick, 3);
     let conf3: Vec<Vec<u8>> = tier.pick(vec![vec![3, 6, 9]], vec![vec![3, 6, 9], vec![0, 9, 3]]);
+    let plain3: Vec<Vec<Label>> = if quick {
+        // both sides in every split, plus an uncertain assertion in every position (it must not bridge)
+        let mut p = words(&[T_S, T_R], 3);
+        p.extend([vec![T_U, T_S, T_S], vec![T_S, T_U, T_S], vec![T_S, T_S, T_U]]);
+        p
+    } else {
+        words(&[T_S, T_R, T_U], 3)
+    };
     v.push(Stage {
-        name: format!("n=3 plain, {} structure multisets{} x 27 stance patterns", s3.len(), if orbits { " (renaming classes)" } else { "" }),
+        name: format!("n=3 plain: {} structure multisets{} x {} stance patterns x {} confidence patterns", s3.len(), cls(quick), plain3.len(), conf3.len()),
         n: 3,
-        groups: pattern_family(false, &s3, &words(&[T_S, T_R, T_U], 3), &conf3, true),
+        groups: pattern_family(false, &s3, &plain3, &conf3, true),
         queries: q1.clone(),
     });
-    let s3f = structure_multisets(3, true);
-    let labels3f: Vec<Label> = tier.pick(vec![T_S, T_R, V_S], vec![T_S, T_R, T_U, V_S, V_R]);
+    let s3f = structure_multisets(3, true, 3);
+    let func3: Vec<Vec<Label>> = if quick {
+        // opposition mixes rejects and rival supports; plus one supporter between rival supporters
+        let mut p = words(&[T_R, V_S], 3);
+        p.push(vec![V_S, T_S, V_S]);
+        p
+    } else {
+        words(&[T_S, T_R, T_U, V_S, V_R], 3)
+    };
+    v.push(Stage {
+        name: format!("n=3 functional: {} structure multisets{} x {} value/stance patterns", s3f.len(), cls(true), func3.len()),
+        n: 3,
+        groups: pattern_family(true, &s3f, &func3, &conf3[..1], true),
+        queries: q1.clone(),
+    });
+    // n = 4: one side (that is where components merge), every order
+    let s4 = structure_multisets(4, quick, if quick { 2 } else { 3 });
+    let conf4 = vec![vec![3u8, 6, 9, 0]];
+    let plain4: Vec<Vec<Label>> = tier.pick(vec![vec![T_S; 4]], vec![vec![T_S; 4], vec![T_S, T_S, T_R, T_S]]);
     v.push(Stage {
         name: format!(
-            "n=3 functional, {} structure multisets (renaming classes) x {} value/stance patterns",
-            s3f.len(),
-            labels3f.len().pow(3)
+            "n=4 plain: {} structure multisets{}{} x {} stance patterns",
+            s4.len(),
+            cls(quick),
+            if quick { " citing at most 2 distinct evidence ids" } else { "" },
+            plain4.len()
         ),
-        n: 3,
-        groups: pattern_family(true, &s3f, &words(&labels3f, 3), &conf3, true),
-        queries: q1.clone(),
-    });
-    // n = 4: one side only (that is where components merge), every order
-    let s4 = structure_multisets(4, orbits);
-    let conf4 = vec![vec![3u8, 6, 9, 0]];
-    let plain4: Vec<Vec<Label>> = tier.pick(vec![vec![T_S; 4]], vec![vec![T_S; 4], vec![T_R; 4], vec![T_S, T_S, T_R, T_S]]);
-    v.push(Stage {
-        name: format!("n=4 plain, {} structure multisets{} x {} patterns", s4.len(), if orbits { " (renaming classes)" } else { "" }, plain4.len()),
         n: 4,
         groups: pattern_family(false, &s4, &plain4, &conf4, true),
         queries: q1.clone(),
     });
-    let s4f = structure_multisets(4, true);
+    let s4f = structure_multisets(4, true, if quick { 2 } else { 3 });
     v.push(Stage {
-        name: format!("n=4 functional, {} structure multisets (renaming classes), opposition = rejects + rival supports", s4f.len()),
+        name: format!(
+            "n=4 functional: {} structure multisets{}{}, opposition = 2 rejects + 2 rival supports",
+            s4f.len(),
+            cls(true),
+            if quick { " citing at most 2 distinct evidence ids" } else { "" }
+        ),
         n: 4,
         groups: pattern_family(true, &s4f, &[vec![V_S, T_R, V_S, T_R]], &conf4, true),
         queries: q1.clone(),
     });
-    if tier == Tier::Thorough {
+    if !quick {
         // n = 5: laws that need no permutation: sorted + reversed order only
-        let s5 = structure_multisets(5, false);
+        let s5 = structure_multisets(5, false, 3);
         v.push(Stage {
-            name: format!("n=5 plain, {} structure multisets, sorted and reversed order only", s5.len()),
+            name: format!("n=5 plain: {} structure multisets, all supporting, sorted and reversed order only", s5.len()),
             n: 5,
             groups: pattern_family(false, &s5, &[vec![T_S; 5]], &[vec![3, 6, 9, 0, 6]], false),
             queries: q1.clone(),
@@ -266,15 +289,14 @@ fn never_stored(run: &mut Run) {
                 "a never-stored proposition projected as rejected".into(),
                 json!({"relation": "never-stored"}),
             )),
-            other => run.violation(runner::violation(
-                "silence|never-stored-proposition-has-no-answer",
-                functional,
-                format!(
+            other => run.violation(Violation {
+                signature: "C20|silence|never-stored-proposition-has-no-answer".into(),
+                summary: format!(
                     "BELIEF (s, pred, v) over a fully grounded tuple nobody ever asserted answered {:?}; the agent-facing syntax card (KIPSyntax.md, BELIEF output) promises `insufficient`, not zero rows",
                     other.map(|rows| rows.into_iter().map(|r| r.raw).collect::<Vec<_>>())
                 ),
-                json!({"relation": "never-stored"}),
-            )),
+                replay: json!({"relation": "never-stored"}),
+            }),
         }
     }
 }
@@ -324,14 +346,15 @@ fn main() {
         }
         let plan = Plan {
             queries: stage.queries.clone(),
-            entry_points: true,
+            entry_points_every: 2,
             restab: true,
             batch_cases: 48,
+            rotate_batches: 12,
+            compare_within_group: true,
         };
         let t0 = Instant::now();
         let outcomes: Vec<Outcome> = util::par_map(jobs.into_iter().enumerate().collect(), threads, |(j, groups)| {
-            let mut world = World::new(&format!("s{}j{j}", stage.n));
-            runner::run_groups(&mut world, &groups, &plan, Some(deadline))
+            runner::run_groups(&format!("s{}j{j}", stage.n), &groups, &plan, Some(deadline))
         });
         let mut stage_viol: Vec<Violation> = Vec::new();
         let mut stopped = false;
@@ -343,6 +366,9 @@ fn main() {
             run.add(&format!("multisets_n{}", stage.n), o.groups);
             run.add("entry_point_checks", o.entry_point_checks);
             run.add("reprojection_checks", o.restab_checks);
+            run.add("nexus_instances", o.worlds);
+            run.add("kml_transactions", o.statements);
+            run.add("kql_queries", o.queries);
             for (k, v) in o.statuses {
                 run.add(&format!("status_{k}"), v);
             }
